@@ -7,6 +7,8 @@ import (
 	"fmt"
 	"os"
 	"sync"
+	"syscall"
+	"unsafe"
 )
 
 // ---------------------------------------------------------------- PRNG
@@ -122,24 +124,54 @@ func shortHash(b []byte) string {
 
 // ---------------------------------------------------------------- guarded buffers
 
-// Guard tracks every byte array handed to the library so that any write to
-// caller-owned memory (including spare capacity and the bytes around the
-// slice) is noticed.
+// Guard owns every byte array handed to the library. The arrays are carved
+// out of anonymous mmap'ed pages that are made READ-ONLY before the call: any
+// write to caller-supplied memory - including a transient one that is undone
+// before the call returns, and one into the spare capacity behind a slice -
+// faults, and the fault is turned into a recoverable panic
+// (debug.SetPanicOnFault). As a second line the arrays are canary-filled and
+// hashed before and after each call.
 type Guard struct {
-	arrs [][]byte
-	sum  [32]byte
+	chunks [][]byte
+	cur    []byte
+	off    int
+	arrs   [][]byte
+	sum    [32]byte
+	ro     bool
 }
 
 const guardPad = 16
-const guardSpare = 8
+const guardSpare = 80 // spare capacity behind every slice: room for an in-place append of a key or signature
 
-// Buf returns a copy of b cut out of a larger canary-filled array, with spare
-// capacity behind it. nil stays nil.
+func (g *Guard) alloc(n int) []byte {
+	n = (n + 7) &^ 7
+	if g.cur == nil || g.off+n > len(g.cur) {
+		size := 4096
+		for size < n {
+			size *= 2
+		}
+		m, err := syscall.Mmap(-1, 0, size, syscall.PROT_READ|syscall.PROT_WRITE, syscall.MAP_ANON|syscall.MAP_PRIVATE)
+		if err != nil {
+			infra("mmap: %v", err)
+		}
+		g.chunks = append(g.chunks, m)
+		g.cur, g.off = m, 0
+	}
+	b := g.cur[g.off : g.off+n : g.off+n]
+	g.off += n
+	return b
+}
+
+// Buf returns a copy of b inside guarded memory, surrounded by canaries and
+// with spare capacity behind it. nil stays nil.
 func (g *Guard) Buf(b []byte) []byte {
 	if b == nil {
 		return nil
 	}
-	arr := make([]byte, len(b)+2*guardPad)
+	if g.ro {
+		g.unprotect()
+	}
+	arr := g.alloc(guardPad + len(b) + guardSpare)
 	for i := range arr {
 		arr[i] = 0xA5 ^ byte(i*7)
 	}
@@ -148,8 +180,16 @@ func (g *Guard) Buf(b []byte) []byte {
 	return arr[guardPad : guardPad+len(b) : guardPad+len(b)+guardSpare]
 }
 
-// Raw registers an array that is handed out as overlapping views.
-func (g *Guard) Raw(arr []byte) { g.arrs = append(g.arrs, arr) }
+// Raw returns n bytes of guarded memory for the caller to lay out itself
+// (overlapping views).
+func (g *Guard) Raw(n int) []byte {
+	if g.ro {
+		g.unprotect()
+	}
+	arr := g.alloc(n)
+	g.arrs = append(g.arrs, arr)
+	return arr
+}
 
 func (g *Guard) hash() [32]byte {
 	h := sha256.New()
@@ -161,5 +201,42 @@ func (g *Guard) hash() [32]byte {
 	return s
 }
 
-func (g *Guard) Seal()        { g.sum = g.hash() }
+func (g *Guard) unprotect() {
+	for _, c := range g.chunks {
+		syscall.Mprotect(c, syscall.PROT_READ|syscall.PROT_WRITE)
+	}
+	g.ro = false
+}
+
+// Seal records the content and makes all guarded memory read-only.
+func (g *Guard) Seal() {
+	g.sum = g.hash()
+	for _, c := range g.chunks {
+		if err := syscall.Mprotect(c, syscall.PROT_READ); err != nil {
+			infra("mprotect: %v", err)
+		}
+	}
+	g.ro = true
+}
+
 func (g *Guard) Intact() bool { return g.hash() == g.sum }
+
+// Contains reports whether addr lies inside guarded memory.
+func (g *Guard) Contains(addr uintptr) bool {
+	for _, c := range g.chunks {
+		base := uintptr(unsafe.Pointer(&c[0]))
+		if addr >= base && addr < base+uintptr(len(c)) {
+			return true
+		}
+	}
+	return false
+}
+
+// Release unmaps the guarded memory. The Prepared it belongs to must not be
+// used afterwards.
+func (g *Guard) Release() {
+	for _, c := range g.chunks {
+		syscall.Munmap(c)
+	}
+	g.chunks, g.cur, g.arrs = nil, nil, nil
+}
